@@ -32,7 +32,7 @@ def asOp (j : Json) : R Op := do
       | [i, v] => do pure (← asNat i, ← asOpt asCell v)
       | _ => .error "meta entry"
     pure (.saveMeta (← getStr j "field") entries)
-  | "write_file" => pure (.writeFile (← getStr j "stem") (← fld j "file" >>= asFile))
+  | "write_file" => pure (.writeFile (← getStr j "stem", ← getBool j "tsv") (← fld j "file" >>= asFile))
   | "save_subset" => pure .saveSubset
   | "close" => pure .close
   | "reload" => pure .reload
@@ -59,7 +59,7 @@ def runC10 (op : String) (j : Json) : R Json := do
                                                   ("abs_clusters", jNats a.clusters),
                                                   ("abs_fields", jList (fun (f : String × List (Nat × Cell)) =>
                                                      Json.arr #[Json.str f.1, jList (fun (p : Nat × Cell) => Json.arr #[jNat p.1, jCell p.2]) f.2]) a.fields),
-                                                  ("files", jList (fun (f : String × File) => Json.str f.1) d.files),
+                                                  ("files", jList (fun (f : FName × File) => Json.str (f.1.1 ++ (if f.1.2 then ".tsv" else ".csv"))) d.files),
                                                   ("subset", Json.bool d.subsetSaved)]]
       | _ => pure ()
     pure (Json.mkObj [("views", Json.arr views.toArray)])
